@@ -438,7 +438,12 @@ pub fn exec(ctx: &mut Ctx, op: &str, p: &mut Toks) -> String {
                 format!("{} {} {} {} | {} | {} | {} flags {}", tl.len(), vl.len(), va.len(), r1(&tl), r1(&vl), r1(&va), r_net_params(&net), r_flags(&net))
             })
         }
-        "learn" => {
+        "learn" | "learnon" => {
+            // `learnon`: every training flag is already set when `learn` is entered (a run that was interrupted, or a
+            // caller that set them); `learn` must leave the network in inference mode all the same
+            if cmd == "learnon" {
+                set_all_training(&mut net, true);
+            }
             let k = p.nat();
             let (xs, ts) = samples(p, k);
             let has_val = p.boolean();
@@ -457,6 +462,14 @@ pub fn exec(ctx: &mut Ctx, op: &str, p: &mut Toks) -> String {
             let job = LearnJob { xs, ts, val, batch, epochs, script, print: if print == 0 { None } else { Some(print as i32) }, phases: 1 };
             let r = run_learn(&mut net, &job);
             crate::ops::props::net_oracles_learn(ctx, &spec, &net, &job, &r);
+            if r.is_ok() && ctx.prop == "C12" {
+                // after training has returned, validate is still the faithful aggregation of predict on the same network
+                let (vx, vt) = match &job.val { Some((a, b, _)) => (a.clone(), b.clone()), None => (job.xs.clone(), job.ts.clone()) };
+                let xr: Vec<&Tensor> = vx.iter().collect();
+                let tr: Vec<&Tensor> = vt.iter().collect();
+                let r2 = try_run(|| net.validate(&xr, &tr, 0.1));
+                crate::ops::props::net_oracles_validate(ctx, &spec, &mut net, &vx, &vt, 0.1, false, &r2);
+            }
             r.map(|(tl, vl, va)| {
                 format!("{} {} {} {} | {} | {} | {} flags {}", tl.len(), vl.len(), va.len(), r1(&tl), r1(&vl), r1(&va), r_net_params(&net), r_flags(&net))
             })
